@@ -68,6 +68,13 @@ func LiveSequence(r *mon.Rand, n int, bufSize int, withSysex bool) [][]byte {
 			for i := 1; i < len(m); i++ {
 				m[i] = r.Byte() & 0x7F
 			}
+		} else if r.P(1, 8) {
+			// a message from the dictionary of standard messages
+			mx := 0
+			if withSysex {
+				mx = bufSize
+			}
+			m = WellKnown(r, mx)
 		} else {
 			k := r.Intn(13)
 			if k == 11 && !withSysex {
